@@ -649,10 +649,10 @@ def obligations(tier):
                                desc="one component of each type over 2 dependencies: every role assignment, declaration order and dependency outcome",
                                bounds={"dependencies": 2, "roles": ROLES, "outcomes": 4, "types": TYPES, "values": "unconstrained symbolic ints", "enabled": "symbolic"},
                                encoded=enc, budget_s=60, replay="fires", check_sample=True))
-        obls.append(Obligation("O1-fires-k3", make_o1(3, ROLES[:4], ["value", "skip"], TYPES),
+        obls.append(Obligation("O1-fires-k3", make_o1(3, ROLES, ["value", "skip", "content_error", "crash"], TYPES),
                                ["invoked-iff", "args-bound", "missing-reported"],
-                               desc="3 dependencies, 4 roles, present/absent outcomes",
-                               bounds={"dependencies": 3, "roles": ROLES[:4], "outcomes": 2, "types": TYPES}, encoded=enc, budget_s=90,
+                               desc="one component of each type over 3 dependencies: every role assignment (incl. membership in two groups), every declaration order, every dependency outcome",
+                               bounds={"dependencies": 3, "roles": ROLES, "outcomes": 4, "types": TYPES, "values": "unconstrained symbolic ints", "enabled": "symbolic"}, encoded=enc, budget_s=200,
                                replay="fires", check_sample=True))
     obls.append(Obligation("O3-type-level", make_o3(3 if thorough else 2), ["args-bound"],
                            desc="dependencies declared on the component type (class-level requires / optional) combined with decorator arguments, for several components of the same type created one after the other",
